@@ -113,6 +113,26 @@ def object_level(rep, rng, quick):
         t = run.add(f"mclose {C.qlit(tol_of(x, X, rel=1e-9))} (gram_centred {C.qlist(x)} {C.qmat(X)} 0) {C.qmat(G)}")
         todo.append((t, "dense-gram", kind, {"x": x, "X": X, "impl": G}))
         monitors_gram(rep, d, G, x, X, "dense-1d", rng)
+        if m >= 3:
+            Gs = d.inner_product(method_integration="simpson", noise_variance=0)
+            cen_s = d.center(method_smoothing=None)
+            nsq_s = cen_s.norm(squared=True, method_integration="simpson")
+            ss = max(1.0, float(np.max(np.abs(Gs))))
+            bad_s = []
+            if np.max(np.abs(Gs - Gs.T)) > 1e-10 * ss:
+                bad_s.append("not symmetric")
+            if np.max(np.abs(np.diag(Gs) - nsq_s)) > 1e-9 * ss:
+                bad_s.append("diagonal is not the squared (Simpson) norm of the centred curves")
+            if np.max(np.abs(Gs.sum(axis=1))) > 1e-8 * ss * n:
+                bad_s.append("rows do not sum to zero")
+            from FDApy.misc.utils import _inner_product as _ip
+            Xc = np.asarray(cen_s.values)
+            if n >= 2 and abs(Gs[0, 1] - _ip(Xc[0], Xc[1], x, method="simpson")) > 1e-9 * ss:
+                bad_s.append("off-diagonal entry is not the Simpson inner product of the centred curves")
+            rep.case(("simpson-gram", X.tobytes()), kind="dense-gram/simpson")
+            if bad_s:
+                rep.violation("dense Gram matrix with method_integration='simpson': " + "; ".join(bad_s),
+                              {"x": C.hexf(x), "X": C.hexf(X)})
         monitors_norm(rep, rng, x, X)
         if i % 3 == 0:
             # 2-D dense data
